@@ -1149,6 +1149,53 @@ def _(e):
     return "gcp_opt", ttb.gcp_opt, (X, 2, Objectives.GAUSSIAN, Adam(max_iters=2, epoch_iters=2)), {"init": init, "printitn": 0}
 
 
+@entry("gcp_opt(guess as a list of matrices)", (2, 3))
+def _(e):
+    # the guess handed over as plain matrices, in the layouts callers hold them: Fortran-ordered (taken from another model), C-ordered,
+    # single-column (rank 1: both orders at once)
+    from pyttb.gcp.fg_setup import Objectives
+    from pyttb.gcp.optimizers import LBFGSB, Adam
+
+    e.shape = tuple(max(3, s) for s in e.shape)
+    X = _algo_data(e, "tensor")
+    R = int(e.rng.integers(1, 3))
+    lay = int(e.rng.integers(0, 3))
+    mats = [e.rng.random((s, R)) + 0.1 for s in e.shape]
+    mats = [np.asfortranarray(m) for m in mats] if lay == 0 else [np.ascontiguousarray(m) for m in mats] if lay == 1 else [np.asfortranarray(m) if i % 2 else m for i, m in enumerate(mats)]
+    init = mats if e.rng.random() < 0.7 else tuple(mats)
+    opt = LBFGSB(maxiter=2) if e.rng.random() < 0.5 else Adam(max_iters=1, epoch_iters=2)
+    return "gcp_opt", ttb.gcp_opt, (X, R, Objectives.GAUSSIAN, opt), {"init": init, "printitn": 0}
+
+
+for _sn in ("nonzeros", "zeros", "uniform", "stratified", "semistrat"):
+    def _mkS(sn):
+        @entry(f"gcp.samplers.{sn}", (2, 3))
+        def _(e, sn=sn):
+            # the stratum samplers called directly; requests that cover exactly what there is (every nonzero once) included
+            from pyttb.gcp import samplers as SAM
+            from pyttb.pyttb_utils import tt_sub2ind
+
+            e.shape = tuple(max(3, s) for s in e.shape)
+            A = np.floor(np.abs(e.arr()) * 3) * (e.rng.random(e.shape) < 0.5)
+            if not A.any():
+                A[(0,) * e.N] = 2.0
+            S = e.sptensor(A=A)
+            nnz = int(S.nnz)
+            k = [nnz, nnz, max(1, nnz - 1), nnz + 2, 1][int(e.rng.integers(0, 5))]
+            nzidx = np.sort(tt_sub2ind(S.shape, S.subs))
+            if sn == "nonzeros":
+                return "gcp.samplers.nonzeros", SAM.nonzeros, (S, k, bool(e.rng.integers(0, 2))), {}
+            if sn == "zeros":
+                nz_ = max(1, min(3, int(np.prod(e.shape)) - nnz))
+                return "gcp.samplers.zeros", SAM.zeros, (S, nzidx, nz_), {"with_replacement": True}
+            if sn == "uniform":
+                return "gcp.samplers.uniform", SAM.uniform, (ttb.tensor(A.copy()), k), {}
+            if sn == "stratified":
+                return "gcp.samplers.stratified", SAM.stratified, (S, nzidx, k, 2), {}
+            return "gcp.samplers.semistrat", SAM.semistrat, (S, k, 2), {}
+    _mkS(_sn)
+
+
 def _gcp_parts(e):
     from pyttb.gcp.fg_setup import Objectives, setup
 
